@@ -24,6 +24,9 @@ pub struct Case {
     pub build: BuildCase,
     pub cfg: SvgCfg,
     pub fit: Fit,
+    /// call order of the fit setters and the common options: 0 options, width, height; 1 options, height, width;
+    /// 2 width, height, options; 3 height, width, options (the result must not depend on it)
+    pub fit_order: u8,
 }
 
 pub fn to_json(c: &Case) -> Value {
@@ -33,7 +36,7 @@ pub fn to_json(c: &Case) -> Value {
         Fit::Height(h) => json!({"height": h}),
         Fit::Both(w, h) => json!({"width": w, "height": h}),
     };
-    json!({"build": c.build.to_json(), "svg": c.cfg.to_json(), "fit": fit})
+    json!({"build": c.build.to_json(), "svg": c.cfg.to_json(), "fit": fit, "fit_order": c.fit_order})
 }
 
 pub fn from_json(v: &Value) -> Option<Case> {
@@ -48,12 +51,18 @@ pub fn from_json(v: &Value) -> Option<Case> {
             _ => Fit::Original,
         }
     };
-    Some(Case { build: BuildCase::from_json(v.get("build")?)?, cfg: SvgCfg::from_json(v.get("svg")?)?, fit })
+    Some(Case { build: BuildCase::from_json(v.get("build")?)?, cfg: SvgCfg::from_json(v.get("svg")?)?, fit, fit_order: v.get("fit_order").and_then(|x| x.as_u64()).unwrap_or(0) as u8 })
 }
 
 pub fn image_builder(c: &SvgCfg, fit: Fit) -> ImageBuilder {
+    image_builder_ordered(c, fit, 0)
+}
+
+pub fn image_builder_ordered(c: &SvgCfg, fit: Fit, fit_order: u8) -> ImageBuilder {
     let mut ib = ImageBuilder::default();
-    c.apply(&mut ib);
+    if fit_order < 2 {
+        c.apply(&mut ib);
+    }
     match fit {
         Fit::Original => {}
         Fit::Width(w) => {
@@ -63,9 +72,17 @@ pub fn image_builder(c: &SvgCfg, fit: Fit) -> ImageBuilder {
             ib.fit_height(h);
         }
         Fit::Both(w, h) => {
-            ib.fit_width(w);
-            ib.fit_height(h);
+            if fit_order % 2 == 0 {
+                ib.fit_width(w);
+                ib.fit_height(h);
+            } else {
+                ib.fit_height(h);
+                ib.fit_width(w);
+            }
         }
+    }
+    if fit_order >= 2 {
+        c.apply(&mut ib);
     }
     ib
 }
@@ -92,7 +109,7 @@ pub fn check(c: &Case, obs: &mut Obs) -> Result<(), Fail> {
         Fit::Height(h) => h,
         Fit::Both(w, h) => w.min(h),
     };
-    let mut ib = image_builder(&c.cfg, c.fit);
+    let mut ib = image_builder_ordered(&c.cfg, c.fit, c.fit_order);
     if c.cfg.warm.is_some() {
         catch(|| c.cfg.warm_up_image_builder(&mut ib, &built.qr)).map_err(|p| Fail { sig: panic_sig(&p), msg: format!("warm-up render panicked: {}", p) })?;
         obs.label("renderer_instance_reused");
@@ -266,7 +283,8 @@ pub fn case_strategy(versions: &'static [usize]) -> BoxedStrategy<Case> {
         .prop_flat_map(|(v, li, margin, shape, (mc, bg), mask, warm)| {
             let cell = Cell { version: v, level: Level::from_index(li), mode: Mode::Byte };
             let s = size(v) + 2 * margin.unwrap_or(4);
-            (case_in_cell(cell, Force { mode: false, level: true, version: true }, mask), fit_strategy(s)).prop_map(move |((build, _), fit)| Case {
+            (case_in_cell(cell, Force { mode: false, level: true, version: true }, mask), fit_strategy(s), 0u8..4).prop_map(move |((build, _), fit, fit_order)| Case {
+                fit_order,
                 build,
                 cfg: SvgCfg { margin, layers: shape.map(|s| vec![(s, None)]).unwrap_or_default(), module_color: mc.clone(), background: bg.clone(), warm, ..SvgCfg::default() },
                 fit,
@@ -309,6 +327,7 @@ pub fn run(e: &'static Engine) {
                     for (fi, fit) in fits.into_iter().enumerate() {
                         let cell = Cell { version: v, level: Level::from_index((v + shape) % 4), mode: Mode::Byte };
                         let strat = case_in_cell(cell, Force { mode: false, level: true, version: true }, None).prop_map(move |(build, _)| Case {
+                            fit_order: 0,
                             build,
                             cfg: SvgCfg { margin: Some(m), layers: vec![(shape, None)], ..SvgCfg::default() },
                             fit,
